@@ -9,22 +9,31 @@
   * `no_underflow`: PROVED for every reserve-side counter (the checked `reward_reserve − reward` of
     claim / compound / exit / claimBoostedRewards / enter / merge, the reward-token balance of a
     minting farm, and — in Props/C05.lean — the supply and the owner totals).
+    `exit_succeeds` / `claim_succeeds`: in every reachable state a holder's `exitFarm` / `claimRewards`
+    can only fail INSIDE the weekly-rewards module (boosted claim, energy clearing) — every other
+    guard and checked subtraction of the endpoints is discharged from the invariants.
     NOT TRUE in full: the per-week subtraction `remainingBoostedRewardsToDistribute(week) −= reward`
     of `get_user_rewards_for_week` CAN underflow in a reachable state, which makes every operation of
     the affected user fail (also `exitFarm`: the principal is not withdrawable until the week leaves
     the four-week claim window).  `no_underflow_full_false` proves that on a concrete 10-operation
-    history (replayed on the real contracts: /verif/work/farmprover/cx1.ops, same failures).
+    history (replayed on the real contracts: corpus/farm/f6_late_config_underflow.ops, same failures).
+
+  The hypothesis under which the weekly subtraction is safe is `WeekBudget` (Lemmas/FarmWeekSafe.lean):
+  `weekly_sub_safe_under_budget`, `week_budget_init_mono`; its energy half holds in every reachable
+  state (`week_budget_energy_half`), its position half `Σ f ≤ F` is what the counter-example breaks.
 
   Hypotheses of the run-level theorems: `users.Nodup` (distinct accounts — `PosInv`) and `dsc ≠ 0`
   (the division safety constant; with `dsc = 0` every base reward is `x / 0 = 0`).
   Week sums range over the weeks `0 … W` with `W` the current week; later weeks hold nothing
   (`pools_after_current_week_empty`), so any later bound gives the same sum.
 
-  Model: Core/Farm.lean.  Lemmas: Lemmas/FarmCover.lean (on top of FarmAcct / FarmPos / FarmPot / FarmPool).
+  Model: Core/Farm.lean.  Lemmas: Lemmas/FarmCover.lean, FarmWeekSafe.lean, FarmLive.lean, FarmEnergy.lean (on top of
+  FarmAcct / FarmPos / FarmPot / FarmPool / FarmBoost and the Weekly* lemma files).
 -/
 import MxModel.Lemmas.FarmCover
 import MxModel.Lemmas.FarmWeekSafe
 import MxModel.Lemmas.FarmLive
+import MxModel.Lemmas.FarmEnergy
 
 namespace Mx.C05Cover
 open Mx.Farm
@@ -182,7 +191,8 @@ theorem exit_succeeds (kind : Kind) (same : Bool) (dsc pb : Nat) (produce : Bool
   obtain ⟨s1, c1, hg⟩ := generate_ok (s := s) (Cache.read s) hI.time hI.pct
   refine ⟨att, s1, c1, hat, hg, fun s2 boosted hb hc => ?_⟩
   have := exitFarm_ok hA hP hK hI hX (by rw [hdsc]; exact hd) hact ha hle hat hg hb hc
-  simp only [step, known, hu, if_true]
+  show (if u ∈ s.users then _ else none).isSome = true
+  rw [if_pos hu]
   exact this
 
 /-- the same for `claimRewards` of one payment by its holder: it can only fail inside the boosted
@@ -203,8 +213,22 @@ theorem claim_succeeds (kind : Kind) (same : Bool) (dsc pb : Nat) (produce : Boo
   obtain ⟨s1, c1, hg⟩ := generate_ok (s := s) (Cache.read s) hI.time hI.pct
   refine ⟨s1, c1, hg, fun s2 boosted hb => ?_⟩
   have := claimRewards_ok hA hP hK hI hX (by rw [hdsc]; exact hd) hact ha hle hat hg hb
-  simp only [step, known, hu, if_true]
+  show (if u ∈ s.users then _ else none).isSome = true
+  rw [if_pos hu]
   exact this
+
+/-- non-vacuity of `exit_succeeds` / `claim_succeeds`: in the corpus history f1 (week 2, boosted pool
+    pending) both weekly-module calls succeed for user 1, and so do the exit and the claim -/
+example :
+    let s := run (init .mint false 1000000000000 1000 true [1, 2] 0)
+      [.setFactors OWNER ⟨10, 3, 2, 1, 1⟩, .setPct OWNER 2500, .setEnergy 1 1000000 0 1000,
+       .enter 1 none 100000000 [], .advance 10 6, .claim 1 none [(1, 100000000)], .advance 20 7]
+    s.active = true ∧ s.hold 1 2 = 100000000 ∧
+    ((generate s (Cache.read s)).bind fun r1 => (claimBoostedYields r1.1 1).map fun r2 =>
+      (r2.2, (clearUserEnergyIfNeeded (decreaseOwner r2.1 1 100000000) 1).isSome)) = some (2500, true) ∧
+    (step s (.exit 1 none 2 100000000)).isSome = true ∧
+    (step s (.claim 1 none [(2, 100000000)])).isSome = true := by
+  decide
 
 /-! ### no_underflow in full is FALSE: the weekly pool subtraction -/
 
@@ -216,7 +240,7 @@ def no_underflow_full : Prop :=
     let s := run (init kind same dsc pb produce users e0) ops
     ∀ u n a, u ∈ s.users → s.active = true → a ≠ 0 → a ≤ s.hold u n → (exitFarm s u none n a).isSome
 
-/-- The history of the counter-example (/verif/work/farmprover/cx1.ops, ops 1–10).  Boosted
+/-- The history of the counter-example (corpus/farm/f6_late_config_underflow.ops, ops 1–10).  Boosted
     percentage 25 % but NO boosted-yields factors yet.  User 1 (with energy) farms 1 token through
     week 1 (10 blocks settled: week 1's pool = 2500, `farmSupplyForWeek 1 = 1`).  In week 2 user 2
     enters 1000 and sends the position to user 1, who claims with it: without a config the boosted
@@ -313,6 +337,19 @@ theorem week_budget_init_mono (fa : Factors) (R F E sumE sumF sumE' sumF' : Nat)
     (hE : sumE ≤ E) (hF : sumF ≤ F) (hE' : sumE' ≤ sumE) (hF' : sumF' ≤ sumF) :
     WeekBudget fa R F E 0 sumE sumF ∧ WeekBudget fa R F E 0 sumE' sumF' :=
   ⟨WeekBudget.init fa R F E sumE sumF hE hF, (WeekBudget.init fa R F E sumE sumF hE hF).mono hE' hF'⟩
+
+/-- **the energy half of the budget holds in every reachable farm state**, for every week `w`
+    (running, completed or long gone): either no total energy is recorded for `w` (then nothing is
+    paid for it), or the recorded energies, decayed to `w`, of all users whose claim progress can
+    still reach `w` sum to at most `totalEnergyForWeek(w)` — `Σ e_v ≤ E`.  (The weekly module's
+    invariants `GInv` / `EB` transported through the farm's operations, Lemmas/FarmEnergy.lean.)
+    So the ONLY missing piece of `WeekBudget` is the position half `Σ f_v ≤ F`. -/
+theorem week_budget_energy_half (kind : Kind) (same : Bool) (dsc pb : Nat) (produce : Bool)
+    (users : List Nat) (e0 : Nat) (ops : List Op) (w : Nat) :
+    let s := run (init kind same dsc pb produce users e0) ops
+    s.w.totalEnergy w = 0 ∨
+      (s.w.users.map fun u => Weekly.eForP s.w.progress u w).sum ≤ s.w.totalEnergy w :=
+  (reachable_winv kind same dsc pb produce users e0 ops).2 w
 
 /-- in the counter-example state the budget of week 1 is violated by user 1 alone (position 1001
     against a recorded supply of 1) -/
